@@ -49,6 +49,9 @@ class HostStore:
     def allocate(self, key: str, l: int, deser_fun: str, timeout_sec: float = 60.0) -> _Buf:
         if key in self.entries:
             raise ConflictError()
+        if l <= 0:
+            # what the real client does: the store grants the request, then SharedMemory(create=True, size=0) raises
+            raise ValueError("'size' must be a positive number different from zero")
         data = bytearray(l)
         self.entries[key] = {"data": data, "deser_fun": deser_fun, "written": False}
         self.events.append(("allocate", key, l))
